@@ -354,3 +354,10 @@ func ExprStr2(n ast.Node) string {
 	}
 	return s
 }
+
+// FullStr prints a node completely (all lines).
+func FullStr(n ast.Node) string {
+	var sb strings.Builder
+	printer.Fprint(&sb, token.NewFileSet(), n)
+	return sb.String()
+}
